@@ -20,6 +20,11 @@ RULE = ('values: every string over the 12-character metacharacter alphabet (quot
         '(those, double quote, ;, /, *, digits 0-7, x u U E n r t b Z, non-ASCII, astral) up to length 24, runs of quotes and '
         'backslashes up to 40, ints (0, +-1, 2^63 boundaries, random big), bools, None, dates/datetimes/times at their range ends, '
         'flat and nested sequences (list/tuple/dict/set); each rendered for all seven dialects and SELECTed on sqlite. '
+        'sequences of values: every sequence over {1, 1.0, True, \'1\', None, "a\'"} up to length 3 (quick) / 4 (thorough) as a tuple, a '
+        'list, an IN list and the arguments of func.vargs(*values), plus seeded random sequences of length 0-8 drawn WITH replacement '
+        'from a pool of 1-4 members (confusable scalars 1/1.0/True/\'1\'/0/0.0/False/None/\'NULL\', strings holding quotes, backslashes, '
+        'commas and parentheses, 64-bit boundary ints, floats, dates, a nested list/tuple, a column) in the positions sqlrepr(tuple/list/'
+        'set/frozenset/dict/dict-keys/generator), IN(col, ...), func.vargs(...); '
         'statements: INSERT/UPDATE/columnClause/==/IN templates with such values for every dialect; real-table runs on sqlite '
         '(create, read back raw, ==, selectBy, IN, update, sentinel row); EnumCol DDL on sqlite; a malformed stream '
         '(lone surrogates, inf/nan, unknown types). Non-trivial = the value contains a character some dialect must escape, or '
@@ -28,7 +33,11 @@ EXPLANATION = ('Theorems C02_* (Coq, all strings / values / lists) over the conv
                'dbconnection.py and sqlbuilder.py on this run, against reference lexers and a tokenizer for each dialect; '
                'correspondence: exact text equality of sqlrepr and of the statement templates with the model for all seven dialects, '
                'python reference lexers == Coq reference lexers on every text, sqlite decoding SELECT <literal>; oracle: sqlite round '
-               'trip and real-table behaviour, reference lexers applied to the implementation text for the other dialects.')
+               'trip and real-table behaviour, reference lexers applied to the implementation text for the other dialects; '
+               'sequences of values: sqlite EXECUTES the rendered list as the arguments of a user function registered on the raw '
+               'connection and must hand over exactly len(values) members with the values and types given, in order (multiset for '
+               'set/dict), for every dialect the reference lexer splits the list and decodes each member; theorems C02_sequence_text, '
+               'C02_list_members, C02_sequence_members, C02_call_args say the same for all lists in the model.')
 TRUSTED_BASE = [
     'Coq 8.16.1 kernel + vm_compute (examples, correspondence); no native_compute',
     'tools/py2coq/strlang.py + gen_lit.py (transliteration of the string-building subset) and coq/Lib/Str.v (semantics of replace, %, join, slicing, in, startswith/endswith, upper on the two characters the code inspects, repr(int), %0Nd)',
@@ -40,6 +49,10 @@ TRUSTED_BASE = [
     'identifiers (table / column names) are developer input satisfying sqlbuilder.sqlIdentifier; a column is not literally named NULL',
     'floats, Decimal, timedelta and third-party date types are not modelled in Coq (oracle on sqlite only)',
     'what firebird/sybase/maxdb/mssql/mysql drivers do with a NUL character inside a statement is unknown; the sqlite driver refuses it (observed on every run)',
+    'split_list in tools/props/c02.py (python splitter of a parenthesised list at its top-level commas, built on the reference lexers); its '
+    'member count is compared with Model/Lit.v members over the Coq tokenizer on every modelled sequence case; sqlite create_function '
+    'hands a user function the decoded SQL values unchanged (int/float/str/None)',
+    'sqlbuilder.SQLCall.__sqlrepr__ is modelled by hand (call_sql = name ++ rendering of the argument tuple; Tie B only)',
     'the correspondence harness tools/props/c02.py, tools/props/_sqlref.py and the cases.v evaluation',
 ]
 
@@ -85,7 +98,14 @@ def py_of(v):
             return set(items)
         if k == 'frozenset':
             return frozenset(items)
+        if k == 'keys':
+            return {x: i for i, x in enumerate(items)}.keys()
+        if k == 'gen':
+            return (x for x in items)
         return items
+    if t == 'col':
+        from sqlobject import sqlbuilder
+        return sqlbuilder.Field('t', v['v'])
     if t == 'f':
         return float(v['v'])
     if t == 'dec':
@@ -221,6 +241,64 @@ def rand_seq(rng, depth=0):
     return {'t': 'seq', 'k': k, 'v': items}
 
 
+# ---------------------------------------------------------------- sequences of values (comma-separated literal lists)
+# members that render alike / compare equal in Python / look like list syntax
+SEQ_FLOATS = [1.0, 0.0, -0.0, 0.5, -2.25, 1e-07, 1e16, 0.1, 3.0]
+SEQ_STR_ALPHA = ["'", '\\', ',', '(', ')', ' ', '%', 'a', '1', 'E', 'N', '"', ';', '-', 'é', ', ']
+SEQ_CONFUSABLE = [vi(1), vf(1.0), {'t': 'b', 'v': True}, vs('1'), vi(0), vf(0.0), {'t': 'b', 'v': False}, vs('0'), {'t': 'n'},
+                  vs(''), vs('NULL'), vs("it's"), vs('a, b'), vs(')'), vs('(1, 2)'), vs("'"), vs('\\'), vs("', '"), vs('1.0'),
+                  vs("a'b"), vs('E'), vi(-1), vi(3), vi(2 ** 63 - 1), vi(-2 ** 63), vf(-0.0), vs('t'), vs('%s'), vs("\\', 1"), vs('a')]
+SEQ_SMALL = [vi(1), vf(1.0), {'t': 'b', 'v': True}, vs('1'), {'t': 'n'}, vs("a'")]
+SEQ_POS_KINDS = {'value': ['tuple', 'list', 'set', 'frozenset', 'dict', 'keys', 'gen'],
+                 'in': ['list', 'tuple', 'set', 'frozenset', 'dict', 'keys', 'gen'],
+                 'call': ['args']}
+UNORDERED = ('set', 'frozenset', 'dict', 'keys')
+
+
+def seq_scalar(rng):
+    r = rng.random()
+    if r < 0.45:
+        return rng.choice(SEQ_CONFUSABLE)
+    if r < 0.7:
+        return vs(''.join(rng.choice(SEQ_STR_ALPHA) for _ in range(rng.randint(0, 6))))
+    if r < 0.8:
+        return vi(rng.choice([0, 1, -1, 7, 10, 2 ** 31, -2 ** 63, 2 ** 63 - 1, rng.randint(-10 ** 6, 10 ** 6)]))
+    if r < 0.88:
+        return vf(rng.choice(SEQ_FLOATS))
+    if r < 0.94:
+        return rand_date(rng)
+    return rng.choice([{'t': 'n'}, {'t': 'b', 'v': True}, {'t': 'b', 'v': False}])
+
+
+def vseq_case(rng, pos=None):
+    """a sequence of values in one of the positions where the library writes a comma-separated literal list; members are
+    drawn WITH replacement from a small pool, so repeated, equal-but-differently-typed and nested members are the rule"""
+    pos = pos or rng.choice(['value', 'value', 'in', 'call', 'call'])
+    k = rng.choice(SEQ_POS_KINDS[pos])
+    hashable = k in UNORDERED
+    pool = [seq_scalar(rng) for _ in range(rng.choice([1, 1, 2, 2, 3, 4]))]
+    if rng.random() < 0.35:      # a nested sequence (tuple when it has to be hashable), itself with repeats
+        inner = [rng.choice(pool) for _ in range(rng.choice([0, 1, 2, 2, 3]))]
+        pool.append({'t': 'seq', 'k': 'tuple' if hashable else rng.choice(['tuple', 'list']), 'v': inner})
+    if pos == 'call' and rng.random() < 0.15:
+        pool.append({'t': 'col', 'v': rng.choice(['c', 'c2'])})
+    n = rng.choice([0, 1, 2, 2, 3, 3, 4, 5, 8])
+    return {'kind': 'vseq', 'pos': pos, 'k': k, 'v': [rng.choice(pool) for _ in range(n)]}
+
+
+def vseq_exhaustive(maxlen):
+    """every sequence over SEQ_SMALL up to maxlen, as a tuple, a list, an IN list and the arguments of a call"""
+    out, layer = [], [[]]
+    seqs = [[]]
+    for _ in range(maxlen):
+        layer = [p + [x] for p in layer for x in SEQ_SMALL]
+        seqs += layer
+    for v in seqs:
+        for pos, k in (('value', 'tuple'), ('value', 'list'), ('in', 'list'), ('call', 'args')):
+            out.append({'kind': 'vseq', 'pos': pos, 'k': k, 'v': v})
+    return out
+
+
 def rand_ident(rng):
     return rng.choice(['t', 'my_table', 'T1', 'a.b', 'x_1', 'E', 'e', 'NULLS', 'col2'])
 
@@ -340,6 +418,15 @@ def corpus():
         {'kind': 'like', 'd': 'mysql', 'helper': 'contains', 'x': R.cps('a\\b')},
         {'kind': 'enum', 'values': [R.cps("a'b"), R.cps('x')], 'other': R.cps("a''b")},
         {'kind': 'enum', 'values': [R.cps('a\\b')], 'other': R.cps('q')},
+        # seeded scenario: the arguments of a SQL function call / the members of a list are data -- repeated ones stay
+        {'kind': 'vseq', 'pos': 'call', 'k': 'args', 'v': [vs('abcdefgh'), vi(3), vi(3)]},
+        {'kind': 'vseq', 'pos': 'call', 'k': 'args', 'v': [vs('%s|%s'), vs("it's"), vs("it's")]},
+        {'kind': 'vseq', 'pos': 'call', 'k': 'args', 'v': [{'t': 'col', 'v': 'c'}, {'t': 'col', 'v': 'c'}]},
+        {'kind': 'vseq', 'pos': 'in', 'k': 'list', 'v': [vs("it's"), vs("it's"), vs('nope')]},
+        {'kind': 'vseq', 'pos': 'value', 'k': 'list', 'v': [vi(1), vf(1.0), {'t': 'b', 'v': True}, vs('1'), {'t': 'n'}, {'t': 'n'}]},
+        {'kind': 'vseq', 'pos': 'value', 'k': 'tuple', 'v': [{'t': 'seq', 'k': 'list', 'v': [vi(2), vi(2)]},
+                                                              {'t': 'seq', 'k': 'list', 'v': [vi(2), vi(2)]}, vs(', ')]},
+        {'kind': 'vseq', 'pos': 'value', 'k': 'set', 'v': [vi(1), vf(1.0), vs('1'), vs("'")]},
     ]
 
 
@@ -366,6 +453,8 @@ def generate(rng, tier):
     out += [{'kind': 'value', 'v': vf(x)} for x in FLOAT_EDGES]
     out += [{'kind': 'value', 'v': vf(rand_float(rng))} for _ in range(600 if tier == 'quick' else 8000)]
     out += [stmt_case(rng) for _ in range(nstmt)]
+    out += vseq_exhaustive(3 if tier == 'quick' else 4)
+    out += [vseq_case(rng) for _ in range(1500 if tier == 'quick' else 12000)]
     out += [db_case(rng) for _ in range(ndb)]
     out += [enum_case(rng) for _ in range(ndb // 4)]
     out += [malformed(rng) for _ in range(40)]
@@ -379,6 +468,7 @@ def search_cases(rng, tier):
     out += [{'kind': 'value', 'v': rand_scalar(rng)} for _ in range(1500)]
     out += [{'kind': 'value', 'v': vf(x)} for x in FLOAT_EDGES] + [{'kind': 'value', 'v': vf(rand_float(rng))} for _ in range(1500)]
     out += [stmt_case(rng) for _ in range(4000)]
+    out += vseq_exhaustive(3) + [vseq_case(rng) for _ in range(3000)]
     out += [db_case(rng) for _ in range(600)]
     out += [enum_case(rng) for _ in range(150)]
     return out
@@ -755,6 +845,168 @@ def _enum(env0, c, ci=0):
     return o
 
 
+# ---------------------------------------------------------------- comma-separated literal lists
+def split_list(d, t, i=0):
+    """read `(` member `,` member ... `)` at t[i:] with the reference lexer of dialect d: ('ok', members, end) | ('bad', why).
+    A member is a string literal (decoded by the lexer), a nested list, or a bare token (number, NULL, identifier)."""
+    n = len(t)
+    if i >= n or t[i] != '(':
+        return ('bad', 'no opening parenthesis at offset %d' % i)
+    i += 1
+    out = []
+    if i < n and t[i] == ')':
+        return ('ok', out, i + 1)
+    while True:
+        if i >= n:
+            return ('bad', 'the list is not closed')
+        st, c = i, t[i]
+        if c == '(':
+            r = split_list(d, t, i)
+            if r[0] != 'ok':
+                return r
+            i = r[2]
+            out.append({'k': 'seq', 'v': r[1], 'text': t[st:i]})
+        elif c in '\'"' or (c in 'Ee' and t[i + 1:i + 2] == "'"):
+            r = R.lex_lit(d, t[i:])
+            if r[0] != 'ok':
+                return ('bad', 'member %d is not a complete string literal (%s)' % (len(out), r[1]))
+            i = n - len(r[2])
+            out.append({'k': 'lit', 'v': r[1], 'text': t[st:i]})
+        else:
+            j = i
+            while j < n and t[j] not in ',() \'"':
+                j += 1
+            if j == i:
+                return ('bad', 'member %d is empty' % len(out))
+            out.append({'k': 'bare', 'v': t[i:j], 'text': t[i:j]})
+            i = j
+        while i < n and t[i] == ' ':
+            i += 1
+        if i < n and t[i] == ',':
+            i += 1
+            while i < n and t[i] == ' ':
+                i += 1
+            continue
+        if i < n and t[i] == ')':
+            return ('ok', out, i + 1)
+        return ('bad', 'unexpected text after member %d: %r' % (len(out) - 1, t[i:i + 12]))
+
+
+SEQ_IN_PREFIX, SEQ_CALL = '((t.c) IN ', 'vargs'
+
+
+def seq_list_text(pos, text):
+    """the comma-separated list inside the text rendered for a position (None: the surrounding template is not there)"""
+    if pos == 'value':
+        return text
+    if pos == 'in':
+        if text.startswith(SEQ_IN_PREFIX) and text.endswith(')'):
+            return text[len(SEQ_IN_PREFIX):-1]
+        return None
+    if text.startswith(SEQ_CALL):
+        return text[len(SEQ_CALL):]
+    return None
+
+
+def _typed(x):
+    if isinstance(x, bool):
+        return ['other', repr(x)]
+    if isinstance(x, int):
+        return ['i', str(x)]
+    if isinstance(x, float):
+        return ['f', x.hex()]
+    if isinstance(x, str):
+        return ['s', R.cps(x)]
+    if x is None:
+        return ['n']
+    return ['other', repr(x)[:80]]
+
+
+def _vargs_setup(env):
+    """a user function on the raw sqlite connection that remembers the arguments the ENGINE decoded and handed over"""
+    if 'vargs_store' not in env:
+        store = []
+
+        def vargs(*a):
+            store.append(a)
+            return len(a)
+        env['raw'].create_function('vargs', -1, vargs)
+        env['vargs_store'] = store
+    return env['vargs_store']
+
+
+def _vargs_run(env, sql):
+    store = _vargs_setup(env)
+    del store[:]
+    try:
+        rows = env['conn'].queryAll(sql)
+    except Exception as e:
+        return ['reject', _exc(e)]
+    if len(store) != 1 or rows != [(len(store[0]),)]:
+        return ['shape', len(store), repr(rows)[:80]]
+    return ['args', [_typed(x) for x in store[0]]]
+
+
+def _vargs_list(env, listtext, flat):
+    """what sqlite decodes from a rendered list: the whole list as the arguments of one call when it is flat, member by
+    member (nested lists recursively) otherwise -- sqlite has no nested row values"""
+    if flat:
+        return _vargs_run(env, 'SELECT vargs' + listtext)
+    r = split_list('sqlite', listtext)
+    if r[0] != 'ok' or r[2] != len(listtext):
+        return ['unsplit', r[1] if r[0] != 'ok' else 'text after the list']
+    out = []
+    for m in r[1]:
+        if m['k'] == 'seq':
+            out.append(_vargs_list(env, m['text'], not any(x['k'] == 'seq' for x in m['v'])))
+        else:
+            out.append(_vargs_run(env, 'SELECT vargs(%s)' % m['text']))
+    return ['members', out]
+
+
+def _has(v, t):
+    return v['t'] == t or (v['t'] == 'seq' and any(_has(x, t) for x in v['v']))
+
+
+def _vseq(env, c):
+    from sqlobject import sqlbuilder
+    from sqlobject.converters import sqlrepr
+    pos, k = c['pos'], c['k']
+    whole = {'t': 'seq', 'k': k, 'v': c['v']}
+
+    def mk():
+        if pos == 'call':
+            return getattr(sqlbuilder.func, SEQ_CALL)(*[py_of(x) for x in c['v']])
+        if pos == 'in':
+            return sqlbuilder.IN(sqlbuilder.Field('t', 'c'), py_of(whole))
+        return py_of(whole)
+    o = {'texts': [], 'again': []}
+    for d in R.DIALECTS:
+        try:
+            o['texts'].append(R.cps(_render(mk(), d)))
+        except Exception as e:
+            o['texts'].append(['exc', _exc(e)])
+    if pos != 'value' and _texts_ok(o):
+        e = mk()           # ONE expression object rendered for every dialect, and once more for the first
+        try:
+            for d in R.DIALECTS + R.DIALECTS[:1]:
+                o['again'].append(R.cps(_render(e, d)))
+        except Exception as ex:
+            o['again'].append(['exc', _exc(ex)])
+    if _texts_ok(o) and not _has(whole, 'col'):
+        text = R.from_cps(o['texts'][0])
+        flat = not any(x['t'] == 'seq' for x in c['v'])
+        if pos == 'call' and flat:
+            # the statement path: SELECT vargs(...) rendered by the library from a Select object
+            sql = env['conn'].sqlrepr(sqlbuilder.Select([mk()]))
+            o['select_sql'] = R.cps(sql)
+            o['exec'] = _vargs_run(env, sql)
+        else:
+            lt = seq_list_text(pos, text)
+            o['exec'] = ['unsplit', 'template'] if lt is None else _vargs_list(env, lt, flat)
+    return o
+
+
 def run_impl(cases):
     env = _env()
     out = []
@@ -767,6 +1019,8 @@ def run_impl(cases):
                 o = _db(env, c, ci)
             elif k == 'enum':
                 o = _enum(env, c, ci)
+            elif k == 'vseq':
+                o = _vseq(env, c)
             else:
                 try:
                     o = _stmt(env, c)
@@ -799,6 +1053,25 @@ def coq_pairs(items):
     return R.coq_list(['(%s, %s)' % (R.coq_str(n), coq_value(v)) for n, v in items])
 
 
+def coq_vseq(c, o):
+    """modelled members only (no floats / columns), in a container whose order is defined"""
+    items = c['v']
+    if not _texts_ok(o) or not all(modelled(x) for x in items):
+        return 'COracleOnly'
+    if c['k'] in UNORDERED:
+        items = _seq_expected(c['k'], items)
+        if len(items) > 1:
+            return 'COracleOnly'
+    counts = []
+    for d, t in zip(R.DIALECTS, o['texts']):
+        lt = seq_list_text(c['pos'], R.from_cps(t))
+        r = split_list(d, lt) if lt is not None else ('bad', '')
+        counts.append(str(len(r[1])) if r[0] == 'ok' and r[2] == len(lt) else '99')
+    pos = {'value': 'SPlain', 'in': '(SIn %s)' % R.coq_str('t.c'), 'call': '(SCall %s)' % R.coq_str(SEQ_CALL)}[c['pos']]
+    return 'CSeqAll %s %s %s %s' % (pos, R.coq_list([coq_value(x) for x in items]),
+                                    R.coq_list([R.coq_str(R.from_cps(t)) for t in o['texts']]), '[%s]' % '; '.join('%s%%nat' % n for n in counts))
+
+
 def coq_case(c, o):
     k = c['kind']
     if k == 'value':
@@ -819,6 +1092,8 @@ def coq_case(c, o):
         return 'CValue %s %s %s %s' % (coq_value(v), texts, dec, coq_engine(eng))
     if k in ('db', 'enum', 'like'):
         return 'COracleOnly'
+    if k == 'vseq':
+        return coq_vseq(c, o)
     if 'text' not in o:
         # the implementation raised where the model renders: encode as an impossible text
         bad = '[0]'
@@ -871,8 +1146,190 @@ def _unrepresentable_sqlite(v):
     return v['t'] == 's' and any(cp == 0 or 0xD800 <= cp <= 0xDFFF for cp in v['v'])
 
 
+# ---------------------------------------------------------------- oracle for sequences of values
+def _py_repr(v):
+    """the member as the user wrote it (for reports)"""
+    if v['t'] == 'col':
+        return 'Field(t.%s)' % v['v']
+    if v['t'] == 'seq':
+        return '%s[%s]' % (v.get('k', 'list'), ', '.join(_py_repr(x) for x in v['v']))
+    return repr(py_of(v))
+
+
+def _seq_expected(k, items):
+    """the members the database must see: all of them, in order; a set / dict holds what PYTHON keeps of equal members"""
+    if k in UNORDERED:
+        keep, seen = [], {}
+        for x in items:
+            h = py_of(x) if x['t'] != 'seq' else _hashable(x)
+            if h not in seen:
+                seen[h] = 1
+                keep.append(x)
+        return keep
+    return list(items)
+
+
+def _hashable(v):
+    return tuple(_hashable(x) for x in v['v']) if v['t'] == 'seq' else py_of(v)
+
+
+def _member_denotes(d, m, v):
+    """does member m (as read by the reference lexer of dialect d) denote the Python value v?"""
+    t = v['t']
+    if t == 'seq':
+        return m['k'] == 'seq' and _members_match(d, m['v'], _seq_expected(v.get('k', 'list'), v['v']), v.get('k') in UNORDERED) is None
+    if t == 'col':
+        return m['k'] == 'bare' and m['v'] == 't.' + v['v']
+    if t == 'i':
+        return m['k'] == 'bare' and bool(_NUM.match(m['v'])) and int(m['v']) == int(v['v'])
+    if t == 'n':
+        return m['k'] == 'bare' and m['v'] == 'NULL'
+    if t == 'b' and d != 'postgres':
+        return m['k'] == 'bare' and m['v'] == ('1' if v['v'] else '0')
+    if t == 'b':
+        return m['k'] == 'lit' and m['v'] == ('t' if v['v'] else 'f')
+    if t == 'f':
+        try:
+            return m['k'] == 'bare' and bool(_FLOATTOK.match(m['v'])) and float(m['v']).hex() == float(v['v']).hex()
+        except ValueError:
+            return False
+    if t == 's':
+        return m['k'] == 'lit' and m['v'] == R.from_cps(v['v'])
+    exp = _expect_scalar_text(v)
+    return exp is not None and m['k'] == 'lit' and m['v'] == R.from_cps(exp[1])
+
+
+def _members_match(d, members, expected, unordered):
+    """None, or why the members read from the text are not exactly the expected values (one literal each, in order)"""
+    if len(members) != len(expected):
+        return '%d values are written as %d members' % (len(expected), len(members))
+    if not unordered:
+        for i, (m, v) in enumerate(zip(members, expected)):
+            if not _member_denotes(d, m, v):
+                return 'member %d (%s) does not denote value %d (%s)' % (i, m['text'], i, _py_repr(v))
+        return None
+    left = list(members)
+    for v in expected:
+        for m in left:
+            if _member_denotes(d, m, v):
+                left.remove(m)
+                break
+        else:
+            return 'no member denotes the value %s' % _py_repr(v)
+    return None
+
+
+def _exec_expected(v):
+    t = v['t']
+    if t == 's':
+        return ['s', v['v']]
+    if t == 'i':
+        return ['i', str(int(v['v']))]
+    if t == 'b':
+        return ['i', '1' if v['v'] else '0']
+    if t == 'n':
+        return ['n']
+    if t == 'f':
+        return ['f', float(v['v']).hex()]
+    return ['s', _expect_scalar_text(v)[1]]
+
+
+def _exec_match(ex, expected, unordered, flat):
+    """None, or why what sqlite decoded (the arguments its user function received) is not the expected values"""
+    if ex[0] == 'args':
+        if not flat:
+            return 'internal: flat answer for a nested list'
+        got, want = ex[1], [_exec_expected(v) for v in expected]
+        if unordered:
+            got, want = sorted(got, key=repr), sorted(want, key=repr)
+        if got != want:
+            return 'sqlite decoded %d members %s, the values are %d: %s' % (len(got), _show_typed(got), len(want), _show_typed(want))
+        return None
+    if ex[0] != 'members':
+        return 'sqlite did not take the list: %r' % (ex,)
+    if len(ex[1]) != len(expected):
+        return '%d values are written as %d members' % (len(expected), len(ex[1]))
+    left = list(ex[1])
+    for i, v in enumerate(expected):
+        cands = left if unordered else [ex[1][i]]
+        for m in cands:
+            if v['t'] == 'seq':
+                inner = _seq_expected(v.get('k', 'list'), v['v'])
+                why = _exec_match(m, inner, v.get('k') in UNORDERED, not any(x['t'] == 'seq' for x in inner))
+            else:
+                why = None if m == ['args', [_exec_expected(v)]] else 'sqlite decoded %r' % (m,)
+            if why is None:
+                if unordered:
+                    left.remove(m)
+                break
+        else:
+            return 'member %d: value %s: %s' % (i, _py_repr(v), why)
+    return None
+
+
+def _show_typed(l):
+    out = []
+    for x in l:
+        if x[0] == 's':
+            out.append(repr(R.from_cps(x[1])))
+        elif x[0] == 'f':
+            out.append(repr(float.fromhex(x[1])))
+        elif x[0] == 'n':
+            out.append('None')
+        else:
+            out.append(x[1])
+    return '(' + ', '.join(out) + ')'
+
+
+def _oracle_vseq(c, o):
+    pos, k, items = c['pos'], c['k'], c['v']
+    where = {'value': 'sqlrepr(%s)' % k, 'in': 'IN(col, %s)' % k, 'call': 'func.%s(*values)' % SEQ_CALL}[pos]
+    values = '[%s]' % ', '.join(_py_repr(x) for x in items)
+    texts = o.get('texts') or []
+    raised = [t for t in texts if isinstance(t, list) and t and t[0] == 'exc']
+    if raised:
+        # dict views and generators are not registered types: refusing them (for every dialect alike) is allowed
+        if k in ('keys', 'gen') and len(raised) == len(texts) and all(t[1] == 'ValueError' for t in raised):
+            return None
+        return {'what': 'rendering a sequence of supported values raised', 'position': where, 'values': values, 'observed': texts}
+    expected = _seq_expected(k, items)
+    unordered = k in UNORDERED
+    # sqlite: by execution -- the engine itself decodes the list and hands the members to a user function
+    if 'exec' in o:
+        flat = not any(x['t'] == 'seq' for x in items)
+        why = _exec_match(o['exec'], expected, unordered, flat)
+        if why:
+            return {'dialect': 'sqlite', 'what': 'executed on sqlite, the database does not receive the values given: ' + why,
+                    'position': where, 'values': values, 'text': R.from_cps(o.get('select_sql') or texts[0])}
+    # every dialect: the reference lexer reads the list; count and decode the members
+    for d, t in zip(R.DIALECTS, texts):
+        text = R.from_cps(t)
+        lt = seq_list_text(pos, text)
+        if lt is None:
+            return {'dialect': d, 'what': 'the text around the list is not the template of the position', 'position': where, 'text': text}
+        r = split_list(d, lt)
+        if r[0] != 'ok' or r[2] != len(lt):
+            return {'dialect': d, 'what': 'the text is not one parenthesised comma-separated list of literals (%s)'
+                    % (r[1] if r[0] != 'ok' else 'text after the closing parenthesis'), 'position': where, 'values': values, 'text': text}
+        why = _members_match(d, r[1], expected, unordered)
+        if why:
+            return {'dialect': d, 'what': 'the list is not the values given, one literal each, in order: ' + why,
+                    'position': where, 'values': values, 'text': text}
+    if o.get('again'):
+        for d, t in zip(R.DIALECTS + R.DIALECTS[:1], o['again']):
+            if t != texts[R.DIALECTS.index(d)]:
+                return {'dialect': d, 'what': 'the same expression object renders differently after earlier renderings',
+                        'position': where, 'values': values, 'fresh_object': R.from_cps(texts[R.DIALECTS.index(d)]),
+                        'reused_object': R.from_cps(t) if t and isinstance(t[0], int) else t}
+        if len(o['again']) != len(R.DIALECTS) + 1:
+            return {'what': 'rendering the same expression object again raised', 'position': where, 'values': values}
+    return None
+
+
 def oracle(c, o):
     k = c['kind']
+    if k == 'vseq':
+        return _oracle_vseq(c, o)
     if k == 'value':
         v = c['v']
         if v['t'] == 'obj':
@@ -1097,6 +1554,8 @@ def nontrivial(c, o):
         return v['t'] != 's' or _special(R.from_cps(v['v']))
     if c['kind'] == 'db':
         return any(_special(R.from_cps(x)) for x in c['xs'])
+    if c['kind'] == 'vseq':
+        return len(c['v']) >= 2 or any(x['t'] == 'seq' for x in c['v'])
     return True
 
 
@@ -1125,6 +1584,23 @@ def distribution(cases, obs):
                     d['sqlite_rejects'] += 1
                 if isinstance(o, dict) and o.get('dec') and o['dec'][2][0] == 'reject':
                     d['pg_lexer_rejects'] += 1
+        elif c['kind'] == 'vseq':
+            q = d.setdefault('sequences', {'by_position': {}, 'by_container': {}, 'by_length': {}, 'with_repeated_member': 0,
+                                           'with_equal_members_of_other_type': 0, 'nested': 0, 'executed_on_sqlite': 0,
+                                           'refused_container_type': 0})
+            for name, val in (('by_position', c['pos']), ('by_container', c['k']), ('by_length', str(len(c['v'])))):
+                q[name][val] = q[name].get(val, 0) + 1
+            reprs = [_py_repr(x) for x in c['v']]
+            q['with_repeated_member'] += len(set(reprs)) < len(reprs)
+            hs = [_hashable(x) for x in c['v'] if x['t'] != 'col']
+            try:
+                q['with_equal_members_of_other_type'] += len(set(hs)) < len(set(reprs))
+            except TypeError:
+                pass
+            q['nested'] += any(x['t'] == 'seq' for x in c['v'])
+            if isinstance(o, dict):
+                q['executed_on_sqlite'] += o.get('exec', [None])[0] in ('args', 'members')
+                q['refused_container_type'] += bool(o.get('texts')) and not _texts_ok(o)
         elif 'd' in c:
             d['stmt_by_dialect'][c['d']] = d['stmt_by_dialect'].get(c['d'], 0) + 1
         if isinstance(o, dict) and 'crash' not in o and coq_case(c, o) == 'COracleOnly':
@@ -1133,6 +1609,10 @@ def distribution(cases, obs):
 
 
 def explain(c, o):
+    if c['kind'] == 'vseq':
+        return '%s %s [%s]: texts %r exec %r' % (c['pos'], c['k'], ', '.join(_py_repr(x) for x in c['v']),
+                                                [R.from_cps(t) if t and isinstance(t[0], int) else t for t in o.get('texts', [])][:3],
+                                                o.get('exec'))
     if c['kind'] == 'value' and isinstance(o.get('texts'), list):
         return 'texts %r engine %r' % ([R.from_cps(t) if t and isinstance(t[0], int) else t for t in o['texts']], o.get('engine'))
     if 'text' in o:
